@@ -7,6 +7,7 @@ import (
 	"fmt"
 	"math/bits"
 	"strconv"
+	"sync"
 	"unicode/utf8"
 	"verif/internal/coop"
 
@@ -684,13 +685,13 @@ func Run(r *fw.Run) {
 	{
 		l := fw.NewLocal()
 		var lens []int
-		for n := 0; n <= 1100; n++ {
+		for n := 0; n <= enum.DenseMax; n++ {
 			lens = append(lens, n)
 		}
 		for _, p := range []int{1 << 11, 1 << 12, 1 << 13, 1 << 15, 1 << 16, 1 << 20} {
 			lens = append(lens, p-1, p, p+1)
 		}
-		r.Bounds["record_lengths"] = "0..1100 and 2^k-1, 2^k, 2^k+1 for k in {11,12,13,15,16,20}"
+		r.Bounds["record_lengths"] = fmt.Sprintf("0..%d and 2^k-1, 2^k, 2^k+1 for k in {15,16,20}", enum.DenseMax)
 		buf := make([]byte, 1<<20+2)
 		for i := range buf {
 			buf[i] = byte(i*131 + i>>8)
@@ -810,6 +811,39 @@ func Run(r *fw.Run) {
 			}
 		}
 		r.Merge(l)
+	}
+
+	// dense length sweep: a record line, and a tree-head extension line, of every length 0..enum.DenseMax
+	{
+		var mu sync.Mutex
+		r.Bounds["dense_length_sweep"] = fmt.Sprintf("record line and tree-head extension line of every length 0..%d", enum.DenseMax)
+		fw.Parallel(16, func(sh int) {
+			l := fw.NewLocal()
+			defer r.Merge(l)
+			var h tlog.Hash
+			h[3] = 7
+			enum.EachLength('r', enum.DenseMax, func(f string) {
+				if len(f)%16 != sh {
+					return
+				}
+				l.States++
+				for _, text := range []string{f + "\n", "a\n" + f + "\nb\n"} {
+					l.Execs++
+					l.Transitions++
+					if msg, _ := recordCase(10, []byte(text), []byte("5\nz\n\n")); msg != "" {
+						mu.Lock()
+						r.Violation(fmt.Sprintf("record:dense:%d", len(f)), msg, caseT{Kind: "record", N: 10, Text: strconv.QuoteToASCII(text), Tail: strconv.QuoteToASCII("5\nz\n\n")})
+						mu.Unlock()
+					}
+				}
+				l.Execs++
+				if msg := treeCase(99, h, f+"\n"); msg != "" {
+					mu.Lock()
+					r.Violation(fmt.Sprintf("tree:dense:%d", len(f)), msg, caseT{Kind: "tree", N: 99, Text: strconv.QuoteToASCII(h.String()), Tail: strconv.QuoteToASCII(f + "\n")})
+					mu.Unlock()
+				}
+			})
+		})
 	}
 
 	// tree heads
